@@ -48,8 +48,8 @@ int main(void)
     uint8_t ty[2] = { type, 0 }; msg_init(ty, 1); vf_msg_set_compids(&the_msg, t, 1, s, 1);
     m_is_admin = type != 'D'; m_has_pd = pd; m_pd = pd; m_has_st = 1; m_st = clock; m_has_ost = pd; m_ost = clock - 1; clock += 10;
     m_has_nsn = type == '4'; m_nsn = (int32_t)nsn; m_has_trid = 0;
-    uint8_t d[7]; uint32_t v = seq; for (int q = 6; q >= 0; q--) { d[q] = (uint8_t)('0' + v % 10); v /= 10; }
-    uint8_t raw[12]; uint32_t rawn = raw_seq(raw, d);
+    uint8_t d[ND]; digits_of(d, seq);
+    uint8_t raw[16]; uint32_t rawn = raw_seq(raw, d);
     int out0 = out_n, del0 = n_deliver;
     uint8_t ret = vf_process(SESS, raw, rawn);
     int thrown = __vf_exc_pending; __vf_exc_pending = 0;
